@@ -1,4 +1,4 @@
-from armulator.armv6.bits_ops import set_substring, bit_at, substring
+from armulator.armv6.bits_ops import set_substring, bit_at, substring, lower_chunk
 from armulator.armv6.configurations import arch_version
 from armulator.armv6.opcodes.opcode import Opcode
 
@@ -15,7 +15,7 @@ class Umlal(Opcode):
     def execute(self, processor):
         if processor.condition_passed():
             a = set_substring(processor.registers.get(self.d_lo), 63, 32, processor.registers.get(self.d_hi))
-            result = processor.registers.get(self.n) * processor.registers.get(self.m) + a
+            result = lower_chunk(processor.registers.get(self.n) * processor.registers.get(self.m) + a, 64)
             processor.registers.set(self.d_hi, substring(result, 63, 32))
             processor.registers.set(self.d_lo, substring(result, 31, 0))
             if self.setflags:
